@@ -12,11 +12,16 @@ CLAIM = {
             "every operation every live handle reads back exactly its model octets (so a write through one handle never shows through "
             "another, and structural operations never modify shared bytes), and a writable mapping is granted iff the addressed "
             "segment's area has exactly one owner, refused with UBASE_ERR_BUSY otherwise. Use-after-free / double free of areas are CBMC "
-            "pointer checks; everything is released at the end (memory-leak check).",
+            "pointer checks; everything is released at the end (memory-leak check). PICTURE AND SOUND buffers (real ubuf_pic_mem.c / "
+            "ubuf_sound_mem.c / *_common.c, harness/C02_picsound.c): for a symbolic pixel / sample and symbolic values, a write mapping "
+            "is granted while the area has a single owner, a duplicate reads the same content, write mappings through either handle are "
+            "refused (UBASE_ERR_BUSY) while shared, cropping one handle (symbolic arguments) changes neither the size nor the content "
+            "seen through the other, a copy owns its memory (write granted, original handles unaffected), and the last holder gets its "
+            "write mapping back.",
     "note": "Trusted: CBMC 6.11; the 60-line area/segment model in the harness; uatomic_seq.h/upool_depth0.h, static managers. Operation "
             "kinds AND arguments are enumerated by the driver (they decide which areas are shared); payload and written octets are "
-            "symbolic. Not covered: picture and sound buffers (ubuf_pic_mem.c / ubuf_sound_mem.c write-mapping paths and planes re-exported "
-            "as blocks), pool depth > 0, concurrent sharing (C09).",
+            "symbolic. Pictures: 4x4, two planes (4:2:0-like); sound: 6 samples, two s16 planes. Not covered: picture planes "
+            "re-exported as blocks, pool depth > 0, concurrent sharing (C09).",
     "technique": "CBMC bounded model checking of real C against an ownership/area reference model; complete enumeration of valid operation "
                  "sequences from the stated alphabet, symbolic octets",
 }
@@ -105,6 +110,17 @@ def build(tier):
                         shims=SHIMS, unwind=9, unwindset=UW, timeout=280 if quick else 900, leak=True, replay_witness=(i % 80 == 11),
                         sample={"operations": [dict(kind=NAMES[k], handle=h, a=a, b=b) for k, h, a, b in sq],
                                 "symbolic": "payload octets of every area, octet stored by every granted write"} if i % 150 == 11 else None))
+    # picture and sound buffers (harness/C02_picsound.c): write mapping granted iff single owner, dup / crop / copy isolation
+    PS_UW = ["strcmp.0:16", "strlen.0:16", "strdup.0:20", "strcpy.0:20", "memcpy.0:40", "urefcount_release:3"]
+    for mode in ("PIC", "SOUND"):
+        for plane in (0, 1):
+            for variant in (0, 1):
+                qs.append(Query(name="%s_plane%d_%s" % (mode.lower(), plane, "crop" if variant == 0 else "copy"), harness="C02_picsound.c",
+                                defines=["MODE_" + mode, "PLANE=%d" % plane, "VARIANT=%d" % variant, "VERIF_POOL_NO_MGR_REF"], shims=SHIMS, unwind=10,
+                                unwindset=PS_UW, fp_restrict=True, timeout=400, leak=True, replay_witness=True,
+                                sample={"buffer": "4x4 4:2:0 picture" if mode == "PIC" else "6-sample 2-channel s16 sound", "plane": plane,
+                                        "scenario": "write / dup / refused writes / %s / free / write again" % ("crop (symbolic)" if variant == 0 else "copy + write"),
+                                        "symbolic": "coordinates, values, crop arguments"} if plane == 0 else None))
     meta = {"bounds": {"handles": 4, "base_block_octets": 4, "sequence_length": 3 if quick else 4, "sequences": len(qs)},
             "exhaustive": True,
             "rule": "every valid sequence over the stated operation alphabet (kinds with concrete arguments) is one query; validity = the "
@@ -113,5 +129,5 @@ def build(tier):
             "assumptions": ["sequential shims uatomic_seq.h / upool_depth0.h (+VERIF_POOL_NO_MGR_REF), static managers",
                             "an 'owner' of an area is a ubuf segment referencing it (a block sliced by delete/insert owns its area twice, "
                             "and is therefore not writable: that is what UBUF_SINGLE tests)"],
-            "outside": ["picture / sound buffers and planes re-exported as blocks", "more than 4 handles or 6 segments per handle", "pool depth > 0"]}
+            "outside": ["picture planes re-exported as blocks", "pictures / sounds larger than 4x4 / 6 samples", "more than 4 handles or 6 segments per handle", "pool depth > 0"]}
     return qs, meta
